@@ -281,7 +281,20 @@ def run_scenario(kind, full, seed, index, max_delay, patch_name=None):
                     rig.run(2.0)  # too close to the time-out to tell a late confirmation from a timely one: let it pass
                     body += pup.drain() + pup.expire()
                 if pup.confirmable(b) == "confirm":
-                    rig.send(b, b"\x1e")  # confirm the indication received
+                    if rng.random() < 0.3:
+                        # the confirmation arrives twice, back to back (both handed over in one loop iteration): the second
+                        # one is a confirmation nobody waits for, whatever the server has or has not cleaned up yet
+                        def twice(b=b):
+                            for _k in range(2):
+                                rig.log.append((rig.loop.time(), "tx", b, b"\x1e"))
+                                if b == 1:
+                                    rig.cc.send_l2cap_pdu(A.ATT_CID, b"\x1e")
+                                else:
+                                    rig.bearers[b].write(b"\x1e")
+
+                        rig.call(twice)
+                    else:
+                        rig.send(b, b"\x1e")  # confirm the indication received
                 else:
                     # a confirmation nobody waits for; settled before and after so that it cannot cross an
                     # indication in flight (the two directions of a bearer are not ordered with each other)
